@@ -10,10 +10,10 @@ import (
 
 // Files is the emitted source of one program.
 type Files struct {
-	Name      string // base name without extension, e.g. p0012
-	Main      string // <Name>.go, carries the cff build tag
-	Companion string // <Name>_fn.go, no build tag ("" if empty)
-	Imported  string // function declarations for the batch's imported-functions package
+	Name      string         // base name without extension, e.g. p0012
+	Main      string         // <Name>.go, carries the cff build tag
+	Companion string         // <Name>_fn.go, no build tag ("" if empty)
+	Imported  string         // function declarations for the batch's imported-functions package
 	LineK     map[int]int    // source line of a task's function expression -> k
 	ExpName   map[int]string // k -> expected TaskInfo.Name
 	DirName   string         // expected directive name ("" if not instrumented)
@@ -424,7 +424,6 @@ func Emit(p *ps.Program, pkg, fnsPkg string) *Files {
 	if p.Quirk == "names" {
 		cx = "ctx"
 	}
-	inner := p.Generic || p.Quirk == "paramtime" || p.Quirk == "paramdebug"
 	switch {
 	case p.Quirk == "paramtime":
 		e.w("func RunP%d(cx context.Context, h *rt.H) error { return runP%d(cx, h, 0) }\n\n", p.PID, p.PID)
@@ -438,12 +437,9 @@ func Emit(p *ps.Program, pkg, fnsPkg string) *Files {
 	default:
 		e.w("func %s(%s context.Context, h *rt.H) error {\n", fn, cx)
 	}
-	_ = inner
 	for i, t := range p.Results {
 		e.w("\tr%d := mkT%d(rt.Sentinel)\n", i, t)
 	}
-	rvLine := e.body.Len()
-	_ = rvLine
 	e.w("\trv := &recvP%d{h: h}\n\t_ = rv\n", p.PID)
 	errVar := "err"
 	switch p.Quirk {
@@ -463,7 +459,27 @@ func Emit(p *ps.Program, pkg, fnsPkg string) *Files {
 	if p.Quirk == "errvar" {
 		assign = "="
 	}
-	e.w("\t%s %s cff.%s(%s,\n", errVar, assign, directive, e.arg(cx))
+	site := p.Site
+	if p.Quirk != "" || site == "" {
+		site = "assign"
+	}
+	recordResults := func(ind string) {
+		for i, t := range p.Results {
+			e.w("%sh.Result(%d, valT%d(r%d))\n", ind, i, t, i)
+		}
+	}
+	switch site {
+	case "return":
+		e.w("\tdefer func() {\n")
+		recordResults("\t\t")
+		e.w("\t}()\n\treturn cff.%s(%s,\n", directive, e.arg(cx))
+	case "if":
+		e.w("\tif e2 := cff.%s(%s,\n", directive, e.arg(cx))
+	case "arg":
+		e.w("\t%s %s rt.Ret(h, cff.%s(%s,\n", errVar, assign, directive, e.arg(cx))
+	default:
+		e.w("\t%s %s cff.%s(%s,\n", errVar, assign, directive, e.arg(cx))
+	}
 
 	for _, tok := range p.Order {
 		kind, id := ps.SplitTok(tok)
@@ -542,11 +558,24 @@ func Emit(p *ps.Program, pkg, fnsPkg string) *Files {
 			e.w("),\n")
 		}
 	}
-	e.w("\t)\n")
-	for i, t := range p.Results {
-		e.w("\th.Result(%d, valT%d(r%d))\n", i, t, i)
+	switch site {
+	case "return":
+		e.w("\t)\n}\n")
+	case "if":
+		e.w("\t); e2 != nil {\n")
+		recordResults("\t\t")
+		e.w("\t\treturn e2\n\t}\n")
+		recordResults("\t")
+		e.w("\treturn nil\n}\n")
+	case "arg":
+		e.w("\t))\n")
+		recordResults("\t")
+		e.w("\treturn %s\n}\n", errVar)
+	default:
+		e.w("\t)\n")
+		recordResults("\t")
+		e.w("\treturn %s\n}\n", errVar)
 	}
-	e.w("\treturn %s\n}\n", errVar)
 
 	// ----- assemble main file; line numbers shift by the header length.
 	body := e.body.String()
